@@ -38,6 +38,14 @@ names/orders : the expected rendering does not depend on what the named things o
                value of that sample / label for the row's key / label row (Render!NamedCellsOK); both are part of rowsOK,
                i.e. of the clauses BinRows / ItemRows.  Which cells of a metadata row are marked is not in the statement
                (rows are): a mark under the header of a sample that agrees with the reference is reported as DRIFT.
+cell texts   : the expected rendering does not depend on how the free strings of the cells are written: one case in 2 .. 15
+               of every pattern of the kinds with string cells (metadata, statistics of tasks / tests / tests by labels,
+               failed evaluation) is also presented with its metadata values and keys / label values / names of tasks and
+               tests / message carrying a leading / trailing blank, inner blanks, long, with non-ASCII letters, empty, and
+               (metadata) with the differing value differing from the reference value ONLY by a trailing / leading blank or
+               by case, or by being empty (key suffix /text-<flavour>; TEXTS_BY_KIND).  A table cell reads back as the string
+               without its leading / trailing blanks.  Every other random table-operation case has such strings in its string
+               column.  reST markup characters (backquote, asterisk, pipe, backslash ...) are not generated.
 table ops of : one case in fourteen (quick) / eight has the tables its representer produced joined with themselves, joined with the
 representer    table the same representer produced for another result of the same kind (same headers, another failing
 tables         pattern / number of rows), sliced, joined then sliced, on the real TableTemplates; the text of the final table
@@ -107,6 +115,39 @@ def _shuffled(case, items):
     return out
 
 
+# what the free strings that end up in table cells / texts look like (case['text']): metadata values and keys, label
+# values, names of tasks / tests, the message of a failed evaluation.  The first five apply to every such string; the
+# others say how the metadata values that differ / agree look (see md_value).  reST markup characters are not generated.
+TEXTS = ('lead', 'trail', 'inner', 'long', 'nonascii')
+TEXTS_BY_KIND = {'metadata': TEXTS + ('trail-only-diff', 'lead-only-diff', 'case-only-diff', 'empty', 'empty-differs'),
+                 'stats_labels': TEXTS, 'stats_tasks': TEXTS, 'stats_tests': TEXTS, 'failed': TEXTS + ('empty',)}
+TEXT_STRIDE = {'metadata': 2, 'stats_labels': 3, 'stats_tasks': 15, 'stats_tests': 5, 'failed': 1}
+
+
+def _tx(case, s, empty_ok=False):
+    """The string s as case['text'] wants the free strings: with a leading / trailing blank, with single and double
+    inner blanks, long (with blanks), with non-ASCII letters; '' for 'empty' where an empty string makes sense."""
+    t = case.get('text')
+    if t == 'lead':
+        return ' ' + s
+    if t == 'trail':
+        return s + ' '
+    if t == 'inner':
+        return s[:3] + ' ' + s[3:] + '  x'
+    if t == 'long':
+        return s + ' ' + 'lorem ipsum ' * 6 + 'end'
+    if t == 'nonascii':
+        return 'é' + s + 'ßσ'
+    if t == 'empty' and empty_ok:
+        return ''
+    return s
+
+
+def _cell(s):
+    """What a reader finds in a table cell holding the string s: a reST table cell has no leading / trailing blanks."""
+    return str(s).strip()
+
+
 def ds_names(case):
     """[name of the reference, names of the compared datasets ...]"""
     return _names(case, (REF,) + DSNAMES[:len(case['fail'])])
@@ -119,7 +160,7 @@ def md_names(case):
     nsamp = len(case['fail'][0]) + 1
     names = _names(case, ['samp%d' % s for s in range(nsamp)])
     ref = min(names)
-    keys = _names(case, ['key%d' % k for k in range(len(case['fail']))], 'k')
+    keys = [_tx(case, k) for k in _names(case, ['key%d' % k for k in range(len(case['fail']))], 'k')]
     return names, [ref] + [n for n in names if n != ref], keys
 
 
@@ -127,7 +168,8 @@ def label_names(case):
     """Summary by labels: (names of the two selectable labels, values of the first one per row, the two values of the
     second one)."""
     sel = ('zone', 'code') if case.get('ord') else ('lab', 'sub')
-    return sel, _names(case, ['row%d' % r for r in range(len(case['fail']))]), _names(case, ['s0', 's1'], 's')
+    return (sel, [_tx(case, n) for n in _names(case, ['row%d' % r for r in range(len(case['fail']))])],
+            [_tx(case, n) for n in _names(case, ['s0', 's1'], 's')])
 
 
 # --------------------------------------------------------------------------------------------
@@ -246,7 +288,7 @@ def _item_names(case, statuses):
     out = []
     for st, cnt in zip(statuses, case['fail'][0]):
         out += [(st, _scheme_name(case, 'task' + st.lower(), i, len(out) + i)) for i in range(cnt)]
-    return _shuffled(case, _renamed(case, out))
+    return [(st, _tx(case, name)) for st, name in _shuffled(case, _renamed(case, out))]
 
 
 def _renamed(case, items):
@@ -274,11 +316,26 @@ def _labels_part(case):
     return part
 
 
+def md_value(case, k, s):
+    """Value of metadata key k in sample s (0 = the reference sample).  case['text']: the differing value is the
+    reference value plus a trailing / leading blank ('trail-only-diff', 'lead-only-diff'), the reference value in
+    upper case ('case-only-diff'), the empty string ('empty-differs'); 'empty': the reference and the agreeing values
+    are empty strings; else two unlike words, written as _tx says."""
+    t = case.get('text')
+    differs = s > 0 and bool(case['fail'][k][s - 1])
+    base, other = 'val%d' % k, 'oth%d%d' % (k, s)
+    if t in ('trail-only-diff', 'lead-only-diff', 'case-only-diff', 'empty-differs'):
+        return base if not differs else dict(zip(('trail-only-diff', 'lead-only-diff', 'case-only-diff', 'empty-differs'),
+                                                 (base + ' ', ' ' + base, base.upper(), '')))[t]
+    if t == 'empty':
+        return other if differs else ''
+    return _tx(case, other if differs else base)
+
+
 def md_dict(case):
     """{sample name: {key name: value}} in the insertion orders of the case."""
     names, samples, keys = md_names(case)
-    val = lambda k, s: 'val%d' % k if s == 0 or not case['fail'][k][s - 1] else 'oth%d%d' % (k, s)
-    return {n: {keys[k]: val(k, samples.index(n)) for k in range(len(keys))} for n in names}
+    return {n: {keys[k]: md_value(case, k, samples.index(n)) for k in range(len(keys))} for n in names}
 
 
 def build_result(case):
@@ -339,7 +396,7 @@ def build_result(case):
         from valjean.eponine.dataset import Dataset
         a_test = TestEqual(Dataset(np.float64(1.0), np.float64(0.1), name='a'),
                            Dataset(np.float64(1.0), np.float64(0.1), name='b'), name='tfailed')
-        return TestResultFailed(a_test, 'boom')
+        return TestResultFailed(a_test, _tx(case, 'boom', empty_ok=True))
     raise ValueError(kind)
 
 
@@ -490,13 +547,13 @@ def _row_id(case, axis, first):
         hits = [d for d, n in enumerate(ds_names(case)) if d and n in first.split()]
         return hits[0] if len(hits) == 1 else 0
     if axis == 'keys':
-        names = md_names(case)[2]
+        names = [_cell(n) for n in md_names(case)[2]]
         return names.index(first) + 1 if first in names else 0
     if axis == 'statuses':
         names = TASK_STATUSES if case['kind'] == 'stats_tasks' else TEST_OUTCOMES
         return names.index(first) + 1 if first in names else 0
     if axis == 'labels':
-        names = label_names(case)[1]
+        names = [_cell(n) for n in label_names(case)[1]]
         return names.index(first) + 1 if first in names else 0
     return 0
 
@@ -508,11 +565,11 @@ def case_item_tokens(case):
     if case['kind'] == 'metadata':
         dmd = md_dict(case)
         keys = md_names(case)[2]
-        return [[dict(h=n, s=str(md[key])) for n, md in dmd.items()] for key in keys]
+        return [[dict(h=n, s=_cell(md[key])) for n, md in dmd.items()] for key in keys]
     if case['kind'] == 'stats_labels':
         both, rown, subn = label_names(case)
         sel = both[:_labels_by(case)]
-        return [[dict(h=h, s=v) for h, v in zip(sel, (rown[r], subn[r % 2]))] for r in range(len(case['fail']))]
+        return [[dict(h=h, s=_cell(v)) for h, v in zip(sel, (rown[r], subn[r % 2]))] for r in range(len(case['fail']))]
     return []
 
 
@@ -625,26 +682,26 @@ def _cell_number(t, c, r):
     return 100.0 * t + 10.0 * c + r
 
 
-def _cell_text(t, c, r, ncols):
+def _cell_text(t, c, r, ncols, text=None):
     """Text a reader must find for source cell <<t, c, r>> (column 1 holds strings, the others floats)."""
-    return 's%d%d%d' % (t, c, r) if c == 1 else _fmt(_cell_number(t, c, r))
+    return _cell(_tx(dict(text=text), 's%d%d%d' % (t, c, r))) if c == 1 else _fmt(_cell_number(t, c, r))
 
 
-def make_source(t, nrows, masks, ncols, shape=None, lay=None):
+def make_source(t, nrows, masks, ncols, shape=None, lay=None, text=None):
     """A real TableTemplate for source table t; masks[c] = list of bool per row for column c+1; lay: how the (2-d)
-    columns and masks are stored (see _lay; the same for all of them).
-    Returns (template, json table {cols: [[text]], hls: [[bool]]})."""
+    columns and masks are stored (see _lay; the same for all of them); text: what the strings of column 1 look like
+    (see _tx).  Returns (template, json table {cols: [[text]], hls: [[bool]]})."""
     from valjean.javert.templates import TableTemplate
     shp = tuple(shape) if shape else (nrows,)
     cols, hls, jcols = [], [], []
     for c in range(1, ncols + 1):
         if c == 1:
-            col = np.array(['s%d%d%d' % (t, c, r) for r in range(1, nrows + 1)]).reshape(shp)
+            col = np.array([_tx(dict(text=text), 's%d%d%d' % (t, c, r)) for r in range(1, nrows + 1)]).reshape(shp)
         else:
             col = np.array([_cell_number(t, c, r) for r in range(1, nrows + 1)], dtype=float).reshape(shp)
         cols.append(_lay(col, lay))
         hls.append(_lay(np.array(masks[c - 1], dtype=bool).reshape(shp), lay))
-        jcols.append([_cell_text(t, c, r, ncols) for r in range(1, nrows + 1)])
+        jcols.append([_cell_text(t, c, r, ncols, text) for r in range(1, nrows + 1)])
     tab = TableTemplate(*cols, headers=['h%d' % c for c in range(1, ncols + 1)], highlights=hls)
     return tab, dict(cols=jcols, hls=[[bool(x) for x in m] for m in masks])
 
@@ -676,8 +733,8 @@ def read_table(template):
 def run_table_ops(case):
     """case = dict(ncols, n1, m1, n2, m2, ops=[dict(op, a, b)], shape1/shape2 optional) -> trace record fields."""
     from valjean.javert.templates import join as tjoin
-    t1, j1 = make_source(1, case['n1'], case['m1'], case['ncols'], case.get('shape1'), case.get('lay'))
-    t2, j2 = make_source(2, case['n2'], case['m2'], case['ncols'], case.get('shape2'), case.get('lay'))
+    t1, j1 = make_source(1, case['n1'], case['m1'], case['ncols'], case.get('shape1'), case.get('lay'), case.get('text'))
+    t2, j2 = make_source(2, case['n2'], case['m2'], case['ncols'], case.get('shape2'), case.get('lay'), case.get('text'))
     cur = t1
     try:
         for op in case['ops']:
@@ -888,7 +945,7 @@ def ops_partners(cases, stride):
         width = len(c['fail']) if c['kind'] in DS_KINDS else len(c['fail'][0]) if c['kind'] == 'metadata' else 0
         key = json.dumps([{k: v for k, v in c.items() if k not in ('fail', 'nan', 'part')}, width], sort_keys=True)
         count[key] += 1
-        if count[key] % stride == 0 and key in last:
+        if count[key] % (min(stride, 5) if c.get('text') else stride) == 0 and key in last:     # (few text variants per key)
             out[i] = last[key]
         last[key] = c
     return out
@@ -901,7 +958,7 @@ def render_key(case, clauses, obs):
     return key + _lay_suffix(case)
 
 
-VARIANT_FIELDS = ('lay', 'names', 'fp', 'group', 'by', 'part', 'ord')     # dimensions a case is varied along (see *_variants)
+VARIANT_FIELDS = ('lay', 'names', 'fp', 'group', 'by', 'part', 'ord', 'text')     # dimensions a case is varied along (see *_variants)
 
 
 def _base_of(case):
@@ -932,6 +989,8 @@ def _lay_suffix(case):
             dims.append('partial-labels')
     if case.get('ord'):
         dims.append('order-' + case['ord'])
+    if case.get('text'):
+        dims.append('text-' + case['text'])
     return ''.join('/' + d for d in dims)
 
 
@@ -993,6 +1052,33 @@ def order_variants(cases, stride=1, start=0):
     return out
 
 
+def text_variants(cases, dense=False, start=0):
+    """The same results with the free strings that end up in cells and texts -- metadata values and keys, label values,
+    names of tasks / tests, the message of a failed evaluation -- written differently (TEXTS_BY_KIND: leading / trailing
+    / inner blanks, long, non-ASCII letters, empty; metadata values that differ from the reference value by a trailing /
+    leading blank or by case only, or by being empty).  What fails is unchanged, a table cell reads back as the string
+    without its leading / trailing blanks (_cell): judged by the same clauses.  One case in TEXT_STRIDE[kind] (half of
+    it if dense) of every (kind, pattern), the flavours in rotation; the offsets move from pattern to pattern so that
+    every (verbosity, representer) meets every flavour."""
+    out, seen, groups = [], defaultdict(int), {}
+    for c in cases:
+        opts = TEXTS_BY_KIND.get(c['kind'])
+        if not opts or _is_variant(c) or c['verb'] == 'SILENT' or (c['kind'] == 'stats_labels' and not c['fail']):
+            continue
+        if c['kind'] == 'metadata' and not any(any(r) for r in c['fail']):
+            opts = tuple(o for o in opts if not o.endswith('-diff') and o != 'empty-differs')    # (nothing differs)
+        pat = (c['kind'], json.dumps(c['fail']))
+        g = groups.setdefault(pat, len(groups) + start)
+        n = seen[pat]
+        seen[pat] += 1
+        k = max(1, TEXT_STRIDE[c['kind']] // (2 if dense else 1))
+        if (n + g) % k == 0:
+            out.append(dict(c, text=opts[((n + g) // k + g) % len(opts)]))
+            if c['kind'] == 'stats_labels' and len(out) % 2:
+                out[-1]['by'] = 2          # two selected labels: a second column of label values
+    return out
+
+
 def layout_variants(cases, start=0):
     """The same results with the arrays of the datasets stored differently (Fortran order, transposed view, strided
     slice of a larger buffer, integer dtype; all datasets alike or each its own), in rotation over the cases that can
@@ -1028,16 +1114,14 @@ def check_renderings(ctx, cases, wd, n_enum):
     cases[:n_enum] were enumerated by TLC, the others are seeded random."""
     results, table_ops = observe_all(cases, ops_partners(cases, ctx.pick(14, 8)))
     records, tables = [], {}
-    named, off = defaultdict(lambda: [0, 0]), 0
+    named, off = defaultdict(lambda: [0, 0]), []
     for cid, (case, (obs, tokens, tabs)) in enumerate(zip(cases, results), 1):
         records.append(trace_record(cid, case, obs, tokens))
         axis_tables = sum(1 for p in obs['parts'] if p['type'] == 'table' and p['axis'] in ('bins', 'keys', 'labels'))
         named[case['kind']][0] += axis_tables
         named[case['kind']][1] += obs.get('named', 0)
-        if obs.get('marks_off') and off < 3:
-            off += 1
-            ctx.drift('metadata table of %s: the marked cells of a row are not the cells of the samples that differ from the '
-                      'reference sample (%s)' % (json.dumps(case), ', '.join(obs['marks_off'][:4])))
+        if obs.get('marks_off'):
+            off.append(cid)                # (reported below, unless a clause is false on the case anyway)
         if _nontrivial(obs):
             ctx.distinct((case['kind'], tuple(case['shape']), tuple(map(tuple, case['fail'])), case['verb'], case['rep'],
                           json.dumps([case.get(k) for k in VARIANT_FIELDS])))
@@ -1067,6 +1151,10 @@ def check_renderings(ctx, cases, wd, n_enum):
                           'clauses %s of Render.tla are false on the rendering (%s); projection %s'
                           % (clauses, obs.get('why', ''), json.dumps(obs['parts'])[:600]),
                           dict(type='render', case=case), module=MOD)
+    all_bad = set(cid for _, bad in judged for cid in bad)
+    for cid in [c for c in off if c not in all_bad][:3]:
+        ctx.drift('metadata table of %s: the marked cells of a row are not the cells of the samples that differ from the '
+                  'reference sample (%s)' % (json.dumps(cases[cid - 1]), ', '.join(results[cid - 1][0]['marks_off'][:4])))
     ctx.count(evaluations=len(cases), traces=len(cases))
     for k in (0, n_enum // 2, n_enum, len(cases) - 1):
         if 0 <= k < len(cases):
@@ -1075,15 +1163,18 @@ def check_renderings(ctx, cases, wd, n_enum):
     return tables, results, table_ops
 
 
-def _report_table_ops(ctx, meta, bad):
-    """Violations of the operation traces of check_representer_tables: meta[cid] for the ids in bad."""
+def _report_table_ops(ctx, meta, bad, bad_tables=()):
+    """Violations of the operation traces of check_representer_tables: meta[cid] for the ids in bad; bad_tables: the
+    (json) tables that do not read back even without any operation (reported as such: the shortest failing prefix)."""
     opname = lambda ops: '+'.join(o['op'] for o in ops)
     failing = set((json.dumps(meta[cid][0], sort_keys=True), meta[cid][2], meta[cid][3], opname(meta[cid][6])) for cid in bad)
     for cid, why in sorted(bad.items()):
         case, partner, k, who, j1, j2, ops, tobs = meta[cid]
         if len(ops) > 1 and (json.dumps(case, sort_keys=True), k, who, opname(ops[:-1])) in failing:
             continue                       # blame the shortest failing prefix only
-        ctx.violation('C12/table-ops/%s/%s%s/%s' % (case['kind'], opname(ops), '' if who == '-' else '-' + who, why),
+        if json.dumps(j1, sort_keys=True) in bad_tables or (who == 'other' and json.dumps(j2, sort_keys=True) in bad_tables):
+            continue                       # (the table / the operand itself does not read back: reported by its plain read-back)
+        ctx.violation('C12/table-ops/%s/%s%s/%s%s' % (case['kind'], opname(ops), '' if who == '-' else '-' + who, why, _lay_suffix(case)),
                       'table %d of the rendering, after %s (operand: %s), does not read back as what TableOps.tla computes from the '
                       'formatted inputs (%s %s): table %s, operand %s, read back %s'
                       % (k, ops, who, why, tobs.get('why', ''), json.dumps(j1)[:300], json.dumps(j2)[:200], json.dumps(tobs['rows'])[:300]),
@@ -1125,7 +1216,8 @@ def check_representer_tables(ctx, tables, wd, tag, cases=(), table_ops=()):
                       % (k, why, json.dumps(jt)[:300], json.dumps(tobs['rows'])[:300]),
                       dict(type='readback', case=case, table=k), module=MOD)
     if ometa:
-        _report_table_ops(ctx, ometa, {cid: why for cid, why in bad.items() if cid in ometa})
+        bad_tables = set(json.dumps(meta[cid][2], sort_keys=True) for cid in bad if cid in meta)
+        _report_table_ops(ctx, ometa, {cid: why for cid, why in bad.items() if cid in ometa}, bad_tables)
     ctx.count(evaluations=len(recs), traces=len(recs))
 
 
@@ -1257,6 +1349,8 @@ def random_table_cases(rng, n):
             lay = (None, 'F', 'T', 'strided')[len(out) % 4]
             if lay:
                 case['lay'] = lay
+        if len(out) % 2:                   # what the strings of column 1 look like (no random number drawn for it)
+            case['text'] = TEXTS[(len(out) // 2) % len(TEXTS)]
         out.append(case)
     return out
 
@@ -1323,14 +1417,21 @@ def run_c12(ctx):
              'datasets / samples / keys / tasks / tests / labels named and inserted in an order that is not the alphabetical '
              'one (and not the numeric one), columns headed by such a name are judged cell by cell; one case in fourteen / eight '
              'has the tables of its representer joined (with themselves, with the table of another result) and sliced, '
-             'judged by TableOpsTrace.tla.  distinct_nontrivial = '
+             'judged by TableOpsTrace.tla; the metadata / statistics / failed-evaluation cases are repeated (one in 2 .. 15 of every '
+             'pattern, flavours in rotation) with the strings of their cells -- metadata values and keys, label values, names of '
+             'tasks / tests, the message -- carrying leading / trailing / inner blanks, long, with non-ASCII letters, empty, '
+             'metadata values differing from the reference by a trailing / leading blank or by case only (key suffix '
+             '/text-<flavour>); every other random table-operation case has such strings in its string column.  distinct_nontrivial = '
              'distinct inputs whose rendering carries a mark or a table (or raises) + distinct random operation '
              'sequences (+ 1 in 499 of the enumerated ones).')
     ctx.assume('marks shown for the Student test underlying a Bonferroni / Holm result are attributed to that Student '
                'result (it may fail where the corrected test passes)')
     ctx.assume('valid reStructuredText = docutils 0.18 reports no system message of level ERROR or above; the Sphinx role '
                ':ref: is registered as a plain inline role; the hl role must be declared by the text itself')
-    ctx.assume('strings put into tables by the binding (names, labels, metadata values) are plain alphanumerics; '
+    ctx.assume('strings put into tables by the binding (names, labels, metadata values and keys, messages) contain no '
+               'reStructuredText markup characters (backquote, asterisk, pipe, backslash, trailing underscore, :role:); blanks, '
+               'long / empty strings and non-ASCII letters are generated (text variants); the names in the headers of columns are '
+               'plain alphanumerics; a cell reads back as its string without leading / trailing blanks; '
                'statistics over zero tasks / tests are not generated (a summary by labels without any row is); names may '
                'repeat; table operations yielding empty tables are not generated')
     ctx.assume('errors are required in a per-bin row only if the table shows errors at all (the equal / approx-equal '
@@ -1405,13 +1506,17 @@ def run_c12(ctx):
     # that is not the alphabetical one
     ovars = order_variants(order, stride=5)
     cases += ovars
+    # the same results with the strings of their cells written differently (blanks, long, non-ASCII, empty ...)
+    tvars = text_variants(order, dense=not ctx.quick)
+    cases += tvars
     n_enum = len(cases)
     # 3. code -> spec: random results outside the enumerated domain (rendered and judged in the same batches)
     rnd = [c for c in random_render_cases(ctx.rng, ctx.pick(1000, 20000)) if json.dumps(c, sort_keys=True) not in seen]
     rnd_lays = layout_variants(rnd, start=1)
     rnd_svars = stats_variants(rnd, start=1)
     rnd_ovars = order_variants(rnd, stride=2, start=1)
-    cases += rnd + rnd_lays + rnd_svars + rnd_ovars
+    rnd_tvars = text_variants(rnd, dense=True, start=1)
+    cases += rnd + rnd_lays + rnd_svars + rnd_ovars + rnd_tvars
     tables, results, table_ops = check_renderings(ctx, cases, wd, n_enum)
     dispatch = {}
     for case, (obs, _, _) in zip(cases[:n_enum], results):
@@ -1424,6 +1529,9 @@ def run_c12(ctx):
                              of_which_layout_variants=[len(lays), len(rnd_lays)],
                              of_which_statistics_variants=[len(svars), len(rnd_svars)],
                              of_which_order_variants=[len(ovars), len(rnd_ovars)],
+                             of_which_text_variants=[len(tvars), len(rnd_tvars)],
+                             text_variants_by_kind_and_flavour=_count_by(tvars + rnd_tvars, lambda c: '%s/%s' % (c['kind'], c['text'])),
+                             text_variants_distinct_kind_verbosity_representer_flavour=len(set((c['kind'], c['verb'], c['rep'], c['text']) for c in tvars + rnd_tvars)),
                              order_variants_by_kind_and_order=_count_by(ovars + rnd_ovars, lambda c: '%s/%s' % (c['kind'], c['ord'])),
                              order_variants_distinct_kind_verbosity_representer_order=len(set((c['kind'], c['verb'], c['rep'], c['ord']) for c in ovars + rnd_ovars)),
                              statistics_variants_by_dimension={d: sum(1 for c in cases if c['kind'].startswith('stats') and d in _lay_suffix(c).split('/'))
